@@ -9,26 +9,34 @@ From Verif Require Import Base.Chars Base.StrX Exports.Scan Exports.StarReplace
                           Exports.ScanProofs Exports.StarReplaceProofs.
 Import ListNotations.
 
-(* with a literal __all__ (last plain assignment of __all__ is a literal l0, every later
-   `__all__ += v` is a literal, together ls): exports = exactly the entries not starting with `_`
-   (and without a dot), wherever they come from and whatever precedes the assignment *)
-Theorem C19_all_literal : forall name is_init ex pre ts l0 post ls entries,
-  In all_name (flat_map target_names ts) ->
+(* with a literal __all__ - the last statement assigning __all__, plain (`__all__ = v`, also among several
+   targets) or annotated (`__all__: T = v`, C19-a repair), has a literal value l0 and every later
+   `__all__ += v` is a literal, together ls: exports = exactly the entries not starting with `_` (and
+   without a dot), wherever they come from and whatever precedes the assignment *)
+Theorem C19_all_literal : forall name is_init ex pre n l0 post ls entries,
+  all_assign_of member_from_node n = Some (LitOK l0) ->
   no_all_assign member_from_node post ->
   aug_literals post = Some ls ->
   all_str (l0 ++ ls) = Some entries ->
-  exists l, exports name is_init ex (pre ++ NAssign ts (LitOK l0) :: post) = Some l /\
+  exists l, exports name is_init ex (pre ++ n :: post) = Some l /\
             forall x, In x l <-> (In x entries /\ is_private x = false /\ has_dot x = false).
 Proof. exact all_literal. Qed.
 Print Assumptions C19_all_literal.
 
+(* the two statement forms that assign __all__ *)
+Theorem C19_all_assign_forms : forall ts t v,
+  (In all_name (flat_map target_names ts) -> all_assign_of member_from_node (NAssign ts v) = Some v) /\
+  (In all_name (target_names t) -> all_assign_of member_from_node (NAnnAssign t (Some v)) = Some v).
+Proof. exact all_assign_forms. Qed.
+Print Assumptions C19_all_assign_forms.
+
 (* a non-string entry: the scan raises (and the star import is then kept, C19_star_kept_on_failure) *)
-Theorem C19_all_literal_nonstring : forall name is_init ex pre ts l0 post ls,
-  In all_name (flat_map target_names ts) ->
+Theorem C19_all_literal_nonstring : forall name is_init ex pre n l0 post ls,
+  all_assign_of member_from_node n = Some (LitOK l0) ->
   no_all_assign member_from_node post ->
   aug_literals post = Some ls ->
   In None (l0 ++ ls) ->
-  exports name is_init ex (pre ++ NAssign ts (LitOK l0) :: post) = None.
+  exports name is_init ex (pre ++ n :: post) = None.
 Proof. exact all_literal_nonstring. Qed.
 Print Assumptions C19_all_literal_nonstring.
 
@@ -56,11 +64,11 @@ Print Assumptions C19_no_all.
 (* the three ways of being in the "otherwise" case *)
 Theorem C19_not_good_cases : forall ns,
   (~ In all_name (members ns) -> fst (all_scan member_from_node ns) = false) /\
-  (forall pre ts post, ns = pre ++ NAssign ts LitFail :: post ->
-     In all_name (flat_map target_names ts) -> no_all_assign member_from_node post ->
+  (forall pre n post, ns = pre ++ n :: post ->
+     all_assign_of member_from_node n = Some LitFail -> no_all_assign member_from_node post ->
      fst (all_scan member_from_node ns) = false) /\
-  (forall pre ts l0 post, ns = pre ++ NAssign ts (LitOK l0) :: post ->
-     In all_name (flat_map target_names ts) -> no_all_assign member_from_node post ->
+  (forall pre n l0 post, ns = pre ++ n :: post ->
+     all_assign_of member_from_node n = Some (LitOK l0) -> no_all_assign member_from_node post ->
      aug_literals post = None ->
      fst (all_scan member_from_node ns) = false).
 Proof. exact not_good_cases. Qed.
@@ -151,6 +159,12 @@ Example C19_nonvacuous_all_literal :
   /\ aug_literals [NAugAssign (TName all_name) (LitOK [Some s_b])] = Some [Some s_b]
   /\ all_str ([Some s_a; Some s__x] ++ [Some s_b]) = Some [s_a; s__x; s_b].
 Proof. vm_compute. repeat split. Qed.
+
+Example C19_nonvacuous_annotated_all :
+  exports s_m false (fun _ => false)
+    [NAssign [TName s_a] LitFail; NAssign [TName s_b] LitFail;
+     NAnnAssign (TName all_name) (Some (LitOK [Some s_a]))] = Some [s_a].
+Proof. vm_compute. reflexivity. Qed.
 
 Example C19_nonvacuous_no_all :
   let pk := [112; 107]%N in
